@@ -128,12 +128,22 @@ func runC15(stream []byte, cs c15Case, rng *rand.Rand) (key, msg string, msgsSee
 	}
 
 	rest := data
+	var prevReader io.Reader
 	for i := 0; ; i++ {
 		if i > len(data)+2 {
 			return "wt-reader-runaway", "reader produced more messages than the stream has bytes", i
 		}
 		hok, hbin, hn, hlen := wtHeader(rest)
 		typ, rd, err := conn.NextReader()
+		if prevReader != nil {
+			// the reader of the previous message is stale now: it must not hand out bytes that
+			// belong to this (or any later) message
+			sb := make([]byte, 8)
+			if n, _ := prevReader.Read(sb); n > 0 {
+				return "wt-reader-stale-reader-returns-bytes", fmt.Sprintf("after NextReader for frame %d, the reader of frame %d still returned %d byte(s): more than its header declared, taken from a later frame", i, i-1, n), i
+			}
+		}
+		prevReader = nil
 		if !hok {
 			// stream ends before/inside a header: no message may be produced
 			if err == nil {
@@ -234,6 +244,7 @@ func runC15(stream []byte, cs c15Case, rng *rand.Rand) (key, msg string, msgsSee
 			return "wt-reader-payload-mismatch", fmt.Sprintf("frame %d: payload bytes differ from the stream", i), i
 		}
 		msgsSeen++
+		prevReader = rd
 		if complete {
 			if rerr != nil && rerr != io.EOF {
 				return "wt-reader-error-in-complete-frame", fmt.Sprintf("frame %d is complete (%d bytes) but Read failed with %q after %d bytes", i, hn, rerr, len(got)), i
